@@ -25,6 +25,7 @@ fn main() {
         "c13" => checks::c13::main(&a),
         "c14" => checks::c14::main(&a),
         "c15" => checks::c15::main(&a),
+        "c16" => checks::c16::main(&a),
         "c20" => checks::c20::main(&a),
         other => report::machinery(&format!("unknown check {other}")),
     }
